@@ -115,6 +115,40 @@ theorem packWords_spec : ∀ (fuel : Nat) (bits : List Bool), bits.length < fuel
         simp only [bitFn, List.getD_eq_getElem?_getD, List.getElem?_drop]
         congr 2; omega
 
+theorem packWords32_spec : ∀ (fuel : Nat) (bits : List Bool), bits.length < fuel →
+    (packWords32 fuel bits).length = (bits.length + 31) / 32 ∧
+    ∀ i, i < (packWords32 fuel bits).length →
+      (packWords32 fuel bits)[i]! < 2 ^ 32 ∧ ∀ j, j < 32 → (packWords32 fuel bits)[i]!.testBit j = bitFn bits (32 * i + j)
+  | 0, bits, h => by omega
+  | fuel + 1, [], _ => by simp [packWords32]
+  | fuel + 1, b :: bs, h => by
+    have hlen : ((b :: bs).drop 32).length < fuel := by simp only [List.length_drop, List.length_cons] at h ⊢; omega
+    obtain ⟨ih1, ih2⟩ := packWords32_spec fuel ((b :: bs).drop 32) hlen
+    have hpw : packWords32 (fuel + 1) (b :: bs) = wordOfBits ((b :: bs).take 32) :: packWords32 fuel ((b :: bs).drop 32) := by
+      simp [packWords32]
+    rw [hpw]
+    refine ⟨?_, ?_⟩
+    · simp only [List.length_cons, ih1, List.length_drop]; omega
+    · intro i hi
+      cases i with
+      | zero =>
+        simp only [List.getElem!_cons_zero]
+        refine ⟨?_, ?_⟩
+        · calc wordOfBits ((b :: bs).take 32) < 2 ^ ((b :: bs).take 32).length := wordOfBits_lt _
+            _ ≤ 2 ^ 32 := Nat.pow_le_pow_right (by decide) (by simp [List.length_take]; omega)
+        · intro j hj
+          rw [wordOfBits_testBit]
+          simp only [bitFn, Nat.mul_zero, Nat.zero_add, List.getD_eq_getElem?_getD, List.getElem?_take, hj, ↓reduceIte]
+      | succ i =>
+        simp only [List.length_cons] at hi
+        have := ih2 i (by omega)
+        simp only [List.getElem!_cons_succ]
+        refine ⟨this.1, ?_⟩
+        intro j hj
+        rw [this.2 j hj]
+        simp only [bitFn, List.getD_eq_getElem?_getD, List.getElem?_drop]
+        congr 2; omega
+
 /-! ### popcount -/
 
 theorem popcount_eq (w : Nat) : popcount w = onesUpTo (fun j => w.testBit j) 64 := rfl
